@@ -45,3 +45,58 @@ def uni_static(d0, d1, token0_is_quote, fee="0.05", tick=0, price=None, pool_liq
     broker.set_balance(pool.token0, D(bal0))
     broker.set_balance(pool.token1, D(bal1))
     return broker, market
+
+
+# ---------------------------------------------------------------------------------------------- frames
+BASE_DAY = pd.Timestamp("2024-03-05 00:00:00")
+
+
+def minute_index(start_min: int, n: int) -> pd.DatetimeIndex:
+    return pd.date_range(BASE_DAY + pd.Timedelta(minutes=start_min), periods=n, freq="1min")
+
+
+def uni_frame(pool, start_min: int, ticks, liqs=None, in0=None, in1=None, open_tick=None):
+    """Loader-shaped uniswap frame: int64 tick columns, Decimal amount columns, statistic columns added by the
+    public UniLpMarket.add_statistic_column (so `price` is the previous close)."""
+    import numpy as np
+    from demeter.uniswap.helper import _add_statistic_column
+
+    n = len(ticks)
+    liqs = liqs if liqs is not None else [10**18] * n
+    in0 = in0 if in0 is not None else [0] * n
+    in1 = in1 if in1 is not None else [0] * n
+    opens = [open_tick if open_tick is not None else ticks[0]] + list(ticks[:-1])
+    df = pd.DataFrame(
+        {
+            "netAmount0": pd.Series([D(x) for x in in0], dtype=object),
+            "netAmount1": pd.Series([D(x) for x in in1], dtype=object),
+            "closeTick": np.array(ticks, dtype="int64"),
+            "openTick": np.array(opens, dtype="int64"),
+            "lowestTick": np.array([min(a, b) for a, b in zip(opens, ticks)], dtype="int64"),
+            "highestTick": np.array([max(a, b) for a, b in zip(opens, ticks)], dtype="int64"),
+            "inAmount0": pd.Series([D(x) for x in in0], dtype=object),
+            "inAmount1": pd.Series([D(x) for x in in1], dtype=object),
+            "currentLiquidity": pd.Series([D(x) for x in liqs], dtype=object),
+        }
+    )
+    df.index = minute_index(start_min, n)
+    _add_statistic_column(df, pool)
+    return df
+
+
+def bar_grid(start_min: int, n_minutes: int, interval_min: int):
+    """Resampled bar labels computed with integer arithmetic (bins anchored at midnight of the first day)."""
+    first_day = (start_min // 1440) * 1440
+    lo = first_day + ((start_min - first_day) // interval_min) * interval_min
+    last = start_min + n_minutes - 1
+    hi = first_day + ((last - first_day) // interval_min) * interval_min
+    return [(BASE_DAY + pd.Timedelta(minutes=m)).to_pydatetime() for m in range(lo, hi + 1, interval_min)]
+
+
+def quiet_run(actuator):
+    """Actuator.run without console output."""
+    import contextlib
+    import io
+
+    with contextlib.redirect_stdout(io.StringIO()), contextlib.redirect_stderr(io.StringIO()):
+        actuator.run(False)
